@@ -341,6 +341,7 @@ type cgH struct {
 	anchBurst []float64
 
 	lastPhase string
+	mtuRaised bool
 }
 
 func (h *cgH) fail(sig, format string, a ...any) {
@@ -421,7 +422,11 @@ func (h *cgH) observe(kind string) {
 			if h.s.maxDatagramSize > h.s.pacer.maxDatagramSize {
 				// key fact: the pacer was created with the package default (1280) and has not been
 				// told the sender's (larger) datagram size yet
-				how += " (pacer's datagram size smaller than the sender's)"
+				if h.mtuRaised {
+					how += " (pacer's datagram size smaller than the sender's after SetMaxDatagramSize)"
+				} else {
+					how += " (pacer's datagram size smaller than the sender's)"
+				}
 			}
 			h.fail("TimeUntilSend is "+how+" although the pacer has no budget", "now=%d TimeUntilSend=%d budget=%d senderMDS=%d pacerMDS=%d after %s",
 				now, tus, h.s.pacer.Budget(now), h.s.maxDatagramSize, h.s.pacer.maxDatagramSize, kind)
@@ -695,6 +700,7 @@ func (h *cgH) raiseMTU(size protocol.ByteCount) {
 	before := h.cwnd()
 	h.s.SetMaxDatagramSize(size)
 	h.mds = size
+	h.mtuRaised = true
 	h.res.Events++
 	h.res.Probe("mtu-raised")
 	h.res.Shape("M")
